@@ -99,7 +99,10 @@ func ExtractToDir(c context.Context, ls *ipld.LinkSystem, root cid.Cid, outputDi
 		}
 		var outputName string
 		if outputDir != "-" {
-			outputName = filepath.Join(outputResolvedDir, "unknown")
+			outputName, err = resolvePath(outputResolvedDir, "/unknown")
+			if err != nil {
+				return 0, err
+			}
 		}
 		if ufsNode.DataType.Int() == data.Data_File || ufsNode.DataType.Int() == data.Data_Raw {
 			if err := extractFile(c, ls, pbnode, outputName); err != nil {
@@ -125,6 +128,11 @@ func resolvePath(root, pth string) (string, error) {
 		return "", fmt.Errorf("couldn't eval symlinks in %s: %w", basename, err)
 	}
 	if final != path.Clean(basename) {
+		return "", fmt.Errorf("path attempts to redirect through symlinks")
+	}
+	// The entry itself must not be a symlink either: creating a file or a directory "at" it would
+	// land wherever it points, which can be outside of root.
+	if fi, err := os.Lstat(joined); err == nil && fi.Mode()&os.ModeSymlink != 0 {
 		return "", fmt.Errorf("path attempts to redirect through symlinks")
 	}
 	return joined, nil
